@@ -24,9 +24,9 @@ BUDGET_S = {"quick": 60, "thorough": 900}
 CAP = 0x3000
 MAX_STEP = 256
 
-RULE = ("encoder: every string over {00,01,FF} up to length L (L=9 quick, 12 thorough; exhaustive), every zero-run "
+RULE = ("encoder: every string over {00,01,FF} up to length L (L=9 quick, 13 thorough; exhaustive), every zero-run "
         "length 0..1100 in 4 left/right contexts, random strings up to the cap; decoder: every input over "
-        "{00,01,02,FF} up to length M (8 quick, 10 thorough; exhaustive), adversarial inputs around the 0x3000 cap, "
+        "{00,01,02,FF} up to length M (8 quick, 11 thorough; exhaustive), adversarial inputs around the 0x3000 cap, "
         "random inputs; header peek: zero-coded datagrams from the template generator. distinct_nontrivial = "
         "distinct inputs containing at least one zero byte")
 ASSUMPTIONS = [
@@ -166,7 +166,7 @@ def check_header_peek(ctx, rng):
 def run(ctx):
     rng = ctx.rng
     # 1. encoder, exhaustive over {00,01,FF}^<=L
-    L = ctx.pick(9, 12)
+    L = ctx.pick(9, 13)
     idx = 0
     for n in range(0, L + 1):
         for tup in itertools.product((0, 1, 0xFF), repeat=n):
@@ -191,7 +191,7 @@ def run(ctx):
                         check_decoder(ctx, left + b"\x00" * (wraps + 1) + bytes([rem]) + right, "run-wrap")
 
     # 3. decoder, exhaustive over {00,01,02,FF}^<=M
-    M = ctx.pick(8, 10)
+    M = ctx.pick(8, 11)
     idx = 0
     for n in range(0, M + 1):
         for tup in itertools.product((0, 1, 2, 0xFF), repeat=n):
@@ -225,7 +225,7 @@ def run(ctx):
             check_decoder(ctx, d, "adv")
 
     # 5. random strings
-    n_rand = ctx.pick(300, 6000)
+    n_rand = ctx.pick(300, 20000)
     for _ in range(n_rand):
         if ctx.out_of_time():
             break
